@@ -6,7 +6,7 @@ from pv.gen.trees import role_pool_for
 from pv.ref.role import roles_for
 
 G_CONCEPTS = [None, 'alpha', 'beta', '"a string"', 5, 0, 'b', 'a', 'x-01', 1.5, '"x~1"', 'want-01']
-G_CONSTS = ['-', '_', '_3', 'sym', '"str"', '"a b(c)"', '+', 0, 0.0, -1, 1e22, 5, 1.5, None, 'imperative', '"0"', '-0.0', -0.0,
+G_CONSTS = ['-', '_', '_3', '"C:\\dir"', '"\\d+ it\\\'s"', 'sym', '"str"', '"a b(c)"', '+', 0, 0.0, -1, 1e22, 5, 1.5, None, 'imperative', '"0"', '-0.0', -0.0,
             '"\\"q\\""', '1,000', 12345678901234567890, 'mod', '"# x"', '"x : y"']
 
 
